@@ -278,6 +278,29 @@ func bridgeFacts(c *Ctx) error {
 	fmt.Fprintf(&sb, "/-- condition under which FindHighestClaim adds a claimant's power -/\ndef claimPowerGuard : String := %s\n", LeanStr(guard))
 	fmt.Fprintf(&sb, "def claimPowerNeedsWhitelist : Bool := %v\n\n", strings.Contains(guard, "found") && strings.Contains(guard, "&& inWhiteList(validator,"))
 
+	// EnsureAddressIsInWhitelist compares the claim's address *string* with the canonical spelling of every entry
+	wlCmp := "?"
+	if fd := FindFunc(okeeper, "Keeper", "EnsureAddressIsInWhitelist"); fd != nil {
+		ast.Inspect(fd.Body, func(m ast.Node) bool {
+			if is, ok := m.(*ast.IfStmt); ok && wlCmp == "?" {
+				wlCmp = c.Src(is.Cond)
+			}
+			return true
+		})
+	}
+	fmt.Fprintf(&sb, "/-- the test EnsureAddressIsInWhitelist applies to each whitelist entry -/\ndef whitelistTest : String := %s\n", LeanStr(wlCmp))
+	// the duplicate guard of ProcessClaim looks the validator up by the raw string of the message
+	dupKey := "?"
+	if pcl0 := FindFunc(okeeper, "Keeper", "ProcessClaim"); pcl0 != nil {
+		ast.Inspect(pcl0.Body, func(m ast.Node) bool {
+			if is, ok := m.(*ast.IfStmt); ok && strings.Contains(c.Src(is.Cond), "ValidatorClaims[") {
+				dupKey = c.Src(is.Cond)
+			}
+			return true
+		})
+	}
+	fmt.Fprintf(&sb, "def duplicateTest : String := %s\n\n", LeanStr(dupKey))
+
 	// ProcessClaim: sentinel errors returned before AddClaim
 	pcl := FindFunc(okeeper, "Keeper", "ProcessClaim")
 	errs, seen := errorsBefore(pcl, c, "AddClaim")
